@@ -24,7 +24,7 @@ PKG = os.path.join(REPO, 'bitstring')
 OPTION_NAMES = {'lsb0', 'bytealigned', 'mxfp_overflow', 'no_color', '_lsb0', '_bytealigned', '_mxfp_overflow'}
 META = {'explanation': 'Read-effect (frame) contracts over the AST call graph decide purity of every memoised function; '
                        'a bounded run-time interleaving test cross-checks the analysis.'}
-EXTRA_TASKS = ['effects', 'dispatch_tables', 'cached_values_not_mutated', 'cached_stores_flagged', 'runtime_crosscheck']
+EXTRA_TASKS = ['effects', 'dispatch_tables', 'cached_values_not_mutated', 'cached_stores_flagged', 'runtime_crosscheck', 'creation_routes_isolation']
 # 'what was later done to previously returned objects': the ownership contracts (a cached store never reaches a mutable owner)
 ALSO_PROPS = ['C04', 'C01', 'C16', 'C03', 'C05', 'C10']   # every contract whose ownership clause can see a memoised store being adopted or changed
 
@@ -546,7 +546,52 @@ def runtime_crosscheck(tier='quick', seed=0):
             failures.append({'call': name, 'warm': repr(warm), 'cold': repr(cold),
                              'python': f"FAILS = True  # history-dependent result of {name}"})
             break
+    # objects created *before* the caches are dropped, used as arguments *after*: a construction that compares memoised objects by
+    # identity (two Dtype('uint8') being one object only while the cache entry lives) works warm and fails cold
+    held_fails = []
+    held_evals = 0
+    for fmt, items in (('uint8', [1, 2, 3]), ('u8', [7]), ('int16', [-2, 5]), ('float32', [1.5, -2.0]), ('>H', [1, 515]), ('<h', [-3]), ('hex8', ['ab']),
+                       ('uintle24', [70000]), ('bool', [True, False])):
+        try:
+            a = bitstring.Array(fmt, items)
+            d = bitstring.Dtype(fmt)
+        except Exception:
+            continue
+        ops = [(f'Array({fmt!r}, a).tolist()', lambda: bitstring.Array(fmt, a).tolist()),
+               (f'b = Array({fmt!r}, {items[:1]!r}); b.extend(a); b.tolist()', lambda: (lambda b: (b.extend(a), b.tolist())[1])(bitstring.Array(fmt, items[:1]))),
+               (f'Array({fmt!r}, {items!r}).equals(a)', lambda: bitstring.Array(fmt, items).equals(a)),
+               (f'Array(a.dtype, {items!r}).tolist()', lambda: bitstring.Array(a.dtype, items).tolist()),
+               (f'Dtype({fmt!r}) == d, hash', lambda: (bitstring.Dtype(fmt) == d, hash(bitstring.Dtype(fmt)) == hash(d))),
+               (f'pack([d], {items[0]!r}).bin', lambda: bitstring.pack([d], items[0]).bin),
+               (f'Bits().join([...]) / a.data + Bits(d.build(v))', lambda: (a.data + d.build(items[0])).bin),
+               (f'(a + a[0:1]) / a[:]', lambda: bitstring.Array(fmt, a[:]).tolist())]
+        for name, fn in ops:
+            warm = outcome(fn)
+            clear_all()
+            cold = outcome(fn)
+            held_evals += 1
+            if warm != cold:
+                held_fails.append({'call': f'a = Array({fmt!r}, {items!r}); d = Dtype({fmt!r}); every cache cleared; {name}', 'warm': repr(warm), 'cold': repr(cold),
+                                   'python': _COLD + f"a = bitstring.Array({fmt!r}, {items!r})\nwarm = outcome(lambda: bitstring.Array({fmt!r}, a).tolist())\n"
+                                             f"w2 = outcome(lambda: (lambda b: (b.extend(a), b.tolist())[1])(bitstring.Array({fmt!r}, {items[:1]!r})))\nclear_all()\n"
+                                             f"cold = outcome(lambda: bitstring.Array({fmt!r}, a).tolist())\n"
+                                             f"c2 = outcome(lambda: (lambda b: (b.extend(a), b.tolist())[1])(bitstring.Array({fmt!r}, {items[:1]!r})))\n"
+                                             "FAILS = warm != cold or w2 != c2\n"})
+                break
+    evals += held_evals
     return {'id': 'C09.runtime', 'obligations': [], 'evaluations': evals,
-            'bounded': [{'id': 'C09/runtime-warm-vs-cold', 'function': 'construct/parse/Dtype', 'bound': f'{n_calls} calls in one interleaving, seed {seed}',
-                         'evaluations': evals, 'failures': failures}],
+            'bounded': [{'id': 'C09/objects-created-before-the-caches-were-dropped', 'function': 'Array(fmt, array) / Array.extend / Array.equals / Dtype == / pack with held objects',
+                         'bound': f'{held_evals} (format, operation) points', 'evaluations': held_evals, 'failures': held_fails[:3]},
+                        {'id': 'C09/runtime-warm-vs-cold', 'function': 'construct/parse/Dtype', 'bound': f'{n_calls} calls in one interleaving, seed {seed}',
+                         'evaluations': evals - held_evals, 'failures': failures}],
             'summary': f'{evals} warm/cold comparisons'}
+
+
+def creation_routes_isolation(tier='quick', seed=0):
+    """(shared with C04) what a creation by keyword, property, format string or pack returns does not depend on what was done earlier to an object created the same way: an in-place change of that object must not show in any later creation"""
+    from props import C04
+    r = C04.dtype_routes_isolation(tier, seed)
+    for b in r.get('bounded', []):
+        b['id'] = b['id'].replace('C04/', 'C09/')
+    r['id'] = 'C09.isolation'
+    return r
